@@ -30,7 +30,7 @@ theorem crash_safe (fs : FS) (tmp target : Path) (output : Text) (chunks : List 
     left
     rw [run_not_mutating _ fs (fun op h => readOps_not_mutating fs target op (List.mem_of_mem_take h))]
   · simp only [hu]
-    simp only [writeOps, if_true, Bool.false_eq_true, if_false]
+    simp only [writeOps_eq, if_true, Bool.false_eq_true, if_false]
     rw [← List.append_assoc]
     rcases take_append_singleton
         (readOps fs target ++ ([Op.openTrunc tmp] ++ chunks.map (Op.write tmp) ++ [Op.closeWrite tmp]))
@@ -51,11 +51,11 @@ theorem crash_safe (fs : FS) (tmp target : Path) (output : Text) (chunks : List 
 the new output, removes the temporary file and reports `True`. -/
 theorem complete_run_installs_new (fs : FS) (tmp target : Path) (output : Text) (chunks : List Text)
     (hne : tmp ≠ target) (hch : chunks.flatten = output) (hu : upToDate fs target output = false) :
-    (plan fs tmp target output chunks).2 = true ∧
+    (plan fs tmp target output chunks).2 = some true ∧
     (∃ t, (run fs (plan fs tmp target output chunks).1).files target = some ⟨output, t⟩) ∧
     (run fs (plan fs tmp target output chunks).1).files tmp = none := by
   unfold plan
-  simp only [hu, Bool.false_eq_true, if_false, writeOps, if_true, true_and]
+  simp only [hu, Bool.false_eq_true, if_false, writeOps_eq, handlerRet_eq, if_true, true_and]
   rw [← List.append_assoc, run_append]
   obtain ⟨_, t, ht⟩ := before_rename fs tmp target chunks hne
   simp only [run, List.foldl_cons, List.foldl_nil, apply] at ht ⊢
@@ -67,11 +67,11 @@ returns `False`, issues no mutating operation, and the file system -- content an
 mtime of every path -- is the initial one at every point of the run. -/
 theorem same_content_no_ops (fs : FS) (tmp target : Path) (output : Text) (chunks : List Text)
     (hu : upToDate fs target output = true) :
-    (plan fs tmp target output chunks).2 = false ∧
+    (plan fs tmp target output chunks).2 = some false ∧
     (∀ op ∈ (plan fs tmp target output chunks).1, op.mutates = false) ∧
     ∀ k, run fs ((plan fs tmp target output chunks).1.take k) = fs := by
   unfold plan
-  simp only [hu, if_true, true_and]
+  simp only [hu, if_true, tryRet_eq, true_and]
   exact ⟨readOps_not_mutating fs target,
     fun k => run_not_mutating _ fs (fun op h => readOps_not_mutating fs target op (List.mem_of_mem_take h))⟩
 
@@ -79,7 +79,7 @@ theorem same_content_no_ops (fs : FS) (tmp target : Path) (output : Text) (chunk
 in text mode, is the new output. -/
 theorem up_to_date_iff (fs : FS) (target : Path) (output : Text) :
     upToDate fs target output = true ↔ ∃ f, fs.files target = some f ∧ univNewlines f.content = output := by
-  unfold upToDate
+  rw [upToDate_eq]
   cases h : fs.files target with
   | none => simp
   | some f =>
@@ -116,6 +116,19 @@ theorem fallback_not_crash_safe :
     ∃ k, (exFS [1]).files 0 ≠ none ∧
       (run (exFS [1]) ((plan (exFS [1]) 1 0 [2] [[2]] false).1.take k)).files 0 = none := by
   exact ⟨8, by decide, by decide⟩
+
+/-- The temporary file is never the target: the name extracted from the source is the target's
+name followed by a non-empty suffix (`'%s.~%d' % (target_file, os.getpid())`), which justifies
+the hypothesis `tmp ≠ target` of the theorems above. -/
+theorem tmp_name_differs_from_target :
+    Generated.AtomicWriteOps.tmpPattern = "%s.~%d" ∧
+    ∀ (target suffix : List Char), suffix ≠ [] → target ++ suffix ≠ target := by
+  refine ⟨by decide, ?_⟩
+  intro t s hs h
+  have := congrArg List.length h
+  simp only [List.length_append] at this
+  have : s.length = 0 := by omega
+  exact hs (List.length_eq_zero_iff.mp this)
 
 /-- **Determinism w.r.t. insertion order**: for declarations with distinct keys, the
 generated text does not depend on the order in which they were added. -/
